@@ -1,6 +1,7 @@
 """Property registry: which rules decide which property, on which feature sets, and the
 Decided / Not decided texts repeated in the evidence and the manifest."""
 import r_iface
+from engine import on_build
 import r_serde
 import r_wrap
 import r_tables
@@ -48,7 +49,8 @@ PROPS = {
     'C05': dict(
         rules=[r_tables.s06_ma_dispatch, r_step.s07_step_once,
                lambda ctx: r_mirror.s04_mirror_siblings(ctx, which=('highest_lowest::Highest', 'highest_lowest_index::HighestIndex'))],
-        feature_sets=_sets(['default']),
+        feature_sets=_sets(['default'], ['default', 'ci']),
+        rules_thorough=[on_build(r_tables.s06_ma_dispatch, 'ci'), on_build(r_step.s07_step_once, 'ci')],
         explanation=('(S07) every field of every method / indicator instance that is itself a Method, a configurable moving average or a Window is stepped exactly once on every path of next() (inter-procedural through &mut self helpers; seven named exceptions with reasons). Wiring conditions every indicator formula depends on: (S06) for each of the MA kinds, MA::init builds the method '
                      'type held by the same-named MAInstance variant from that arm\'s own period and wraps exactly that instance; '
                      'MAInstance::next steps that payload with the input value and returns it; ma_period returns the arm\'s payload; '
@@ -63,7 +65,7 @@ PROPS = {
     ),
     'C07': dict(
         rules=[r_counters.s08_monotone_counters, r_counters.s08b_bounded_panicking_counters],
-        feature_sets=_sets(['default']),
+        feature_sets=_sets(['default'], ['default', 'u16', 'ci']),
         explanation=('(S08b) a narrow (<= 16 bit) state counter incremented with panicking arithmetic must have a comparison-guarded reset. Decides the sentence "nothing changes when an internal position counter reaches the capacity of PeriodType": every '
                      'integer field of every Method / IndicatorInstance / Window is classified from the def-use trees of its writes in the '
                      'step function (increment by a positive constant via +, +=, saturating/wrapping/checked add; reset; gated increment; '
@@ -78,6 +80,7 @@ PROPS = {
     'C09': dict(
         rules=[r_wrap.s09_pass_through, r_serde.s10_state_purity, r_peek.s11_peek_next_agreement],
         feature_sets=_sets(['default'], ['default', 'nodefault', 'ci']),
+        rules_thorough=[on_build(r_wrap.s09_pass_through, 'nodefault'), on_build(r_peek.s11_peek_next_agreement, 'ci')],
         explanation=('(S09) every batch/functional wrapper (provided methods of Method, Sequence, IndicatorConfig, IndicatorInstance, '
                      'WithHistory/WithLastValue::next) either steps next() exactly once per element on the element itself or delegates '
                      'its own input to another wrapper; no lossy iterator adaptor or sub-slice lies in between; no impl overrides a '
@@ -97,6 +100,7 @@ PROPS = {
     'C11': dict(
         rules=[r_iface.s13_result_arity, r_iface.s14_set_arms, r_iface.s15_naming_forwarding, r_absint.a03_defaults],
         feature_sets=_sets(['default'], ['default', 'nodefault', 'ci']),
+        rules_thorough=[on_build(r_iface.s13_result_arity, 'ci'), on_build(r_iface.s14_set_arms, 'ci'), on_build(r_iface.s15_naming_forwarding, 'nodefault')],
         explanation=('Static rules over the MIR/HIR of every IndicatorConfig / IndicatorInstance impl: (S13) each '
                      'IndicatorResult::new call reachable from next() is fed array-typed slices whose lengths equal the constant '
                      'tuple size() returns and do not exceed IndicatorResult::SIZE; size()/name() are not overridden; (S14) on every '
@@ -118,7 +122,7 @@ PROPS = {
         rules=[r_serde.s17_serde_coverage, r_serde.s02_manual_serde_tables, r_serde.s10_state_purity, r_window.s03_sibling_constructors,
                lambda ctx: r_absint.a01_constructors(ctx, groups=('deserialize',), rule_id='A01d', min_entries=2,
                    title='hand-written Deserialize impls (Window, SMM): with the deserialised helper struct unconstrained (any buffer length, any index) no assertion of from_parts and no other panic is reachable: bad data leaves through Err')],
-        feature_sets=_sets(['default']),
+        feature_sets=_sets(['default'], ['default', 'nodefault']),
         explanation=('(S17) every Method / IndicatorInstance / IndicatorConfig / MA type and every crate type in its field closure has '
                      'Serialize and Deserialize impls; derived impls carry no skip/default/with/flatten/from/into attribute (attributes '
                      'read from the expanded AST), so the serialized form is field-complete; (S02) the two hand-written Serialize impls '
@@ -134,7 +138,7 @@ PROPS = {
     'C14': dict(
         rules=[r_counters.s08_monotone_counters, lambda ctx: r_mirror.s04_mirror_siblings(ctx, which=('cross::CrossAbove', 'reversal::Upper')),
                lambda ctx: r_step.s07_step_once(ctx, only_types=('Cross', 'ReversalSignal'), rule_id='S07c')],
-        feature_sets=_sets(['default']),
+        feature_sets=_sets(['default'], ['default', 'ci']),
         explanation=('(S04) CrossUnder and LowerReversalSignal are, function by function, the HIR mirror image of CrossAbove and UpperReversalSignal under the swap >=/<=, >/< on float operands, max/min and the declared names ("exactly in the mirrored case"). Decides the clause "streams much longer than PeriodType::MAX" for the detectors: no position field of the crossing / '
                      'reversal detectors (nor of any other method) is a capacity-limited monotone counter (S08).'),
         not_decided=['that the max-side definitions themselves (strict/non-strict pair, pivot window, tie rule) are the documented ones',
@@ -164,6 +168,7 @@ PROPS = {
                lambda ctx: r_absint.a01_constructors(ctx, groups=('parser',), rule_id='A01p', min_entries=4,
                    title='Source::from_str, MA::from_str and the TryFrom conversions reach no panic for any text')],
         feature_sets=_sets(['default']),
+        rules_thorough=[on_build(r_tables.s18_source_tables, 'nodefault'), on_build(r_tables.s06_ma_dispatch, 'nodefault')],
         explanation=('(S18) Source: the literal->variant table of from_str and the variant->literal table of Into<&str> are extracted from '
                      'MIR paths; G(v) parses back to v for every variant, every literal is a fixed point of from_str\'s normalisation, the '
                      'default arm is Err, serde names equal G, TryFrom forwards to from_str, and OHLCV::source(kind) calls exactly the '
@@ -181,6 +186,7 @@ PROPS = {
                lambda ctx: r_absint.a01_constructors(ctx, groups=('method-new', 'ma-init', 'config-init', 'config-validate', 'config-set', 'parser'), min_entries=165),
                r_absint.a01c_too_small, r_winv.a04_window_invariant, r_absint.a02_next_with_facts, r_counters.s08b_bounded_panicking_counters],
         feature_sets=_sets(['default']),
+        rules_thorough=[lambda ctx: r_absint.a01_constructors(ctx, groups=('method-new', 'ma-init', 'config-init', 'config-validate', 'config-set', 'parser'), fs='u16', rule_id='A01@u16', min_entries=165), on_build(r_init.s12_validate_dominates_init, 'ci')],
         explanation=('(S12) in every IndicatorConfig::init (37), each construction of Ok(instance) is dominated by the true branch of a '
                      'test on self.validate(), the false branch reaches no Ok, and the configuration is not written afterwards: init '
                      'returns Err whenever validate() is false. (A01) interval x relation abstract interpretation of the monomorphic MIR '
@@ -247,6 +253,7 @@ PROPS = {
                lambda ctx: r_absint.a01_constructors(ctx, groups=('window-ctor', 'deserialize'), labels=('Window',), rule_id='A01w', min_entries=6,
                    title='Window::{new, from_parts, empty, From<Vec>, From<Box<[T]>>} and Window::deserialize: every reachable panic is one the constructor documents (# Panics); deserialize reaches none')],
         feature_sets=_sets(['default']),
+        rules_thorough=[on_build(r_window.s01_iterator_discipline, 'ci'), on_build(r_window.s01c_single_slot_mapping, 'ci')],
         explanation=('(S01) for WindowIterator and ReversedWindowIterator: size_hint is (r, Some(r)) of one field r; on every path of next() '
                      'a yielded item decrements r exactly once by 1 and is preceded by the test r != 0, None is returned exactly under r == 0 '
                      'without touching r; every other Option-returning override (last) looks at r before yielding; count returns r. '
